@@ -505,21 +505,38 @@ func ruleTAB2(w *World) []Ob {
 				return true
 			}
 			found := false
+			isTable := func(e ast.Expr) bool {
+				id, ok := e.(*ast.Ident)
+				return ok && objName(pk.TypesInfo.Uses[id]) == "listSymbols"
+			}
 			ast.Inspect(fd.Body, func(m ast.Node) bool {
-				rs, ok := m.(*ast.RangeStmt)
-				rid, isID := func() (*ast.Ident, bool) {
-					if !ok {
-						return nil, false
+				var loopBody *ast.BlockStmt
+				var rs ast.Stmt
+				switch x := m.(type) {
+				case *ast.RangeStmt:
+					if isTable(x.X) {
+						loopBody, rs = x.Body, x
 					}
-					id, isID := rs.X.(*ast.Ident)
-					return id, isID
-				}()
-				if !ok || !isID || objName(pk.TypesInfo.Uses[rid]) != "listSymbols" {
+				case *ast.ForStmt:
+					// for i := 0; i < len(listSymbols); i++
+					if be, ok := x.Cond.(*ast.BinaryExpr); ok && be.Op == token.LSS {
+						if c, ok := be.Y.(*ast.CallExpr); ok && len(c.Args) == 1 && isTable(c.Args[0]) {
+							if fun, ok := c.Fun.(*ast.Ident); ok && fun.Name == "len" {
+								if as, ok := x.Init.(*ast.AssignStmt); ok && len(as.Rhs) == 1 && isConstInt(pk, as.Rhs[0], 0) {
+									if inc, ok := x.Post.(*ast.IncDecStmt); ok && inc.Tok == token.INC {
+										loopBody, rs = x.Body, x
+									}
+								}
+							}
+						}
+					}
+				}
+				if loopBody == nil {
 					return true
 				}
 				found = true
 				brk := false
-				ast.Inspect(rs.Body, func(k ast.Node) bool {
+				ast.Inspect(loopBody, func(k ast.Node) bool {
 					switch x := k.(type) {
 					case *ast.BranchStmt:
 						if x.Tok == token.BREAK || x.Tok == token.GOTO {
